@@ -255,11 +255,227 @@ class Gen:
             if fields:
                 self.add({'kind': 'bitfield', 'name': self.name('S'), 'base': W, 'fields': fields}, 'F3')
 
+    # -- F6: enums ------------------------------------------------------------------------------
+    def fam_enums(self):
+        rng = self.rng
+        q = self.tier == 'quick'
+        maxexh = 6 if q else 8
+        for n in range(1, maxexh + 1):
+            d = self.enum_decl(n, True, family='F6')
+            if rng.random() < 0.3:
+                d['legacy'] = True
+        for n in list(range(1, 9)) + [9, 15, 16, 17, 31, 32, 33, 63, 64]:
+            self.enum_decl(n, False, nvariants=rng.choice([1, 2, 4]), family='F6')
+            if n <= 6 and n >= 2:
+                self.enum_decl(n, False, nvariants=(1 << n) - 1, family='F6')
+        # conditional enums (cfg(all()) is live, cfg(any()) is stripped)
+        for n in ([1, 2, 3] if q else [1, 2, 3, 4, 5, 8, 16]):
+            k = min(1 << n, 4)
+            discrs = rng.sample(range(1 << n), k)
+            vs = []
+            for i, x in enumerate(discrs):
+                vs.append({'name': 'V%d' % i, 'discr': x, 'cfg': rng.choice([None, 'all', 'any'])})
+            # more variants than values are legal only here; the extra ones are stripped
+            if rng.random() < 0.7:
+                for j in range((1 << n) - k + 1):
+                    vs.append({'name': 'X%d' % j, 'discr': discrs[0], 'cfg': 'any'})
+            self.add({'kind': 'enum', 'name': self.name('E'), 'bits': n, 'exh': 'conditional', 'variants': vs}, 'F6')
+        # literal spellings
+        self.add({'kind': 'enum', 'name': self.name('E'), 'bits': 8, 'exh': None,
+                  'variants': [{'name': 'A', 'discr': 31, 'discr_text': '0x1F'}, {'name': 'B', 'discr': 5, 'discr_text': '0b101'},
+                               {'name': 'C', 'discr': 200, 'discr_text': '2_00'}]}, 'F6')
+
+    # -- F7: invalid declarations (exactly one rule violated) ------------------------------------
+    def invalid_enums(self):
+        rng = self.rng
+        q = self.tier == 'quick'
+
+        def mk(n, exh, discrs, **kw):
+            d = {'kind': 'enum', 'name': self.name('E'), 'bits': n, 'exh': exh,
+                 'variants': [{'name': 'V%d' % i, 'discr': x} for i, x in enumerate(discrs)]}
+            d.update(kw)
+            return d
+        for n in ([1, 2, 3] if q else [1, 2, 3, 4, 5, 6]):
+            full = list(range(1 << n))
+            # claims exhaustive but one value is missing
+            self.add(mk(n, 'true', full[:-1]), 'F7e', 'reject', ['exh-true-missing-one'])
+            # all values present but not declared exhaustive
+            self.add(mk(n, 'false', full), 'F7e', 'reject', ['exh-false-but-full'])
+            self.add(mk(n, None, full), 'F7e', 'reject', ['exh-omitted-but-full'])
+            # too large discriminant (2^n), count below 2^n
+            if n >= 2:
+                self.add(mk(n, None, [0, 1 << n]), 'F7e', 'reject', ['discr-2^n'])
+                self.add(mk(n, 'false', [(1 << n) - 1, (1 << n) + 1]), 'F7e', 'reject', ['discr-2^n+1'])
+            # full count but the largest discriminant is out of range
+            self.add(mk(n, 'true', full[:-1] + [1 << n]), 'F7e', 'reject', ['exh-true-discr-2^n'])
+            # accepted neighbours of the above
+            self.add(mk(n, 'true', full), 'F7e', 'accept', ['exh-true-full'])
+            if n >= 2:
+                self.add(mk(n, None, [0, (1 << n) - 1]), 'F7e', 'accept', ['discr-max'])
+            # more variants than values without `conditional`
+            d = mk(n, None, full)
+            d['variants'].append({'name': 'Extra', 'discr': 0, 'cfg': 'any'})
+            self.add(d, 'F7e', 'reject', ['too-many-not-conditional'])
+            # cfg-gated variant without `conditional`
+            d = mk(n, rng.choice([None, 'false']), [0])
+            d['variants'][0]['cfg'] = 'all'
+            self.add(d, 'F7e', 'reject', ['cfg-without-conditional'])
+            d = mk(n, 'true', full)
+            d['variants'][-1]['cfg'] = 'all'
+            self.add(d, 'F7e', 'reject', ['cfg-with-exhaustive-true'])
+        # missing / non-literal discriminants
+        d = mk(3, None, [0, 1])
+        d['variants'].append({'name': 'NoDiscr', 'discr': None})
+        self.add(d, 'F7e', 'reject', ['missing-discriminant'])
+        d = mk(3, None, [0, 1])
+        d['variants'].append({'name': 'Expr', 'discr': None, 'discr_text': '1 + 1'})
+        self.add(d, 'F7e', 'reject', ['non-literal-discriminant'])
+        d = mk(3, None, [0, 1])
+        d['variants'].append({'name': 'Neg', 'discr': None, 'discr_text': '-1'})
+        self.add(d, 'F7e', 'reject', ['negative-discriminant'])
+        # storage sizes outside 1..=64
+        for n in (0, 65, 100):
+            self.add(mk(n, None, [0]), 'F7e', 'reject', ['size-%d' % n])
+        # storage class boundaries, accepted
+        for n in (8, 9, 16, 17, 32, 33, 63, 64):
+            self.add(mk(n, None, [0, (1 << n) - 1], **({'repr': 'u64'} if n == 64 else {})), 'F7e', 'accept', ['max-discr-at-boundary'])
+            self.add(mk(n, None, [0, 1 << n] if n < 64 else [0, 1], **({'repr': 'u64'} if n >= 63 else {})), 'F7e',
+                     'reject' if n < 64 else 'accept', ['discr-2^n-at-boundary'])
+
+    def invalid_bitfields(self, count):
+        rng = self.rng
+
+        def one(W, f, expect, tag, **kw):
+            d = {'kind': 'bitfield', 'name': self.name('S'), 'base': W, 'fields': [f]}
+            d.update(kw)
+            self.add(d, 'F7', expect, [tag])
+
+        def fld(ty, entries, **kw):
+            return self.field('x', ty, entries, acc=kw.pop('acc', 'rw'), **kw)
+        bases = [8, 16, 32, 64, 128, 9, 12, 24, 33, 63, 100]
+        for k in range(count):
+            W = bases[k % len(bases)]
+            S = storage(W)
+            n = rng.randint(1, min(W, 20))
+            lo = rng.randint(0, W - n)
+            u = {'k': 'u', 'n': n}
+            # type one bit too wide / too narrow
+            one(W, fld({'k': 'u', 'n': n + 1}, [('r', lo, lo + n - 1)] if n > 1 else [('s', lo)]), 'reject', 'type+1')
+            if n > 1:
+                one(W, fld({'k': 'u', 'n': n - 1}, [('r', lo, lo + n - 1)]), 'reject', 'type-1')
+            # out of bounds: hi = W, W+1, S-1, S, S+8 ; and the accepted neighbour hi = W-1
+            for hi in sorted({W, W + 1, S - 1, S, S + 8}):
+                if hi >= W and hi - n + 1 >= 0:
+                    one(W, fld(u, [('r', hi - n + 1, hi)] if n > 1 else [('s', hi)]), 'reject', 'hi=%s' % ('W' if hi == W else 'W+1' if hi == W + 1 else 'S-1' if hi == S - 1 else 'S' if hi == S else 'S+8'))
+            one(W, fld(u, [('r', W - n, W - 1)] if n > 1 else [('s', W - 1)]), 'accept', 'hi=W-1')
+            # bool out of bounds
+            one(W, fld({'k': 'bool'}, [('s', W)]), 'reject', 'bool-bit=W')
+            if S > W:
+                one(W, fld({'k': 'bool'}, [('s', S - 1)]), 'reject', 'bool-bit=S-1')
+            # reversed range
+            if n > 1:
+                one(W, fld(u, [('r', lo + n - 1, lo)]), 'reject', 'reversed')
+                if W >= 2 * n + 2 and n >= 2:
+                    # reversed entry whose arithmetic still adds up: [a..=a+n, hi..=lo] (later position) / first position
+                    a = 0
+                    e_good = ('r', a, a + n)            # n+1 bits
+                    e_rev = ('r', a + n + 3, a + n + 2)  # "-0"... lower > upper by one => contributes 0 via usize arithmetic
+                    if a + n + 3 < W:
+                        one(W, fld({'k': 'u', 'n': n + 1}, [e_good, e_rev], lst=True), 'reject', 'reversed-later')
+                        one(W, fld({'k': 'u', 'n': n + 1}, [e_rev, e_good], lst=True), 'reject', 'reversed-first')
+            # bool over two bits
+            if W >= 2:
+                b = rng.randint(0, W - 2)
+                one(W, fld({'k': 'bool'}, [('r', b, b + 1)]), 'reject', 'bool-2-bits')
+                one(W, fld({'k': 'bool'}, [('r', b, b)]), 'accept', 'bool-range-1-bit')
+            # arrays
+            if W >= 4:
+                m = rng.randint(1, max(1, W // 4))
+                K = W // m
+                base_e = [('r', 0, m - 1)] if m > 1 else [('s', 0)]
+                el = {'k': 'u', 'n': m}
+                one(W, fld(el, base_e, count=K), 'accept', 'array-fits-exactly')
+                one(W, fld(el, base_e, count=K + 1), 'reject', 'array-one-too-many')
+                one(W, fld(el, base_e, count=1), 'reject', 'array-K=1')
+                one(W, fld(el, base_e, count=0), 'reject', 'array-K=0')
+                if m > 1:
+                    one(W, fld(el, base_e, count=2, stride=m - 1), 'reject', 'stride<width')
+                one(W, fld(el, base_e, stride=m), 'reject', 'stride-on-scalar')
+                if S > W and (W % m) != 0 and (K + 1) * m <= S:
+                    one(W, fld(el, base_e, count=K + 1), 'reject', 'array-within-storage-beyond-base')
+                # non-contiguous array without stride / with stride
+                if m >= 2 and W >= 2 * (m + 2):
+                    ents = [('s', 0), ('r', 2, m)] if m > 2 else [('s', 0), ('s', 2)]
+                    one(W, fld(el, ents, count=2, lst=True), 'reject', 'list-array-no-stride')
+                    one(W, fld(el, ents, count=2, stride=m + 2, lst=True), 'accept', 'list-array-stride')
+            # wrong keyword for the form
+            f = fld(u, [('r', lo, lo + n - 1)])
+            if n > 1:
+                f['bits_kw'] = False
+                one(W, f, 'reject', 'bit(a..=b)')
+            f = fld({'k': 'u', 'n': 1}, [('s', lo)])
+            f['bits_kw'] = True
+            one(W, f, 'reject', 'bits(a)')
+            # two ranges outside a list
+            if W >= 4:
+                f = fld({'k': 'u', 'n': 2}, [('s', 0), ('s', 2)], lst=False)
+                f['bits_kw'] = rng.random() < 0.5
+                one(W, f, 'reject', 'two-ranges-no-list')
+            # custom type of the wrong width (rejected by rustc's type check, not by the macro)
+            if 2 <= n <= 8:
+                t = self.custom_enum(n)
+                wrong = dict(t)
+                one(W, fld(wrong, [('r', lo, lo + n - 1)] if n > 1 else [('s', lo)]), 'accept', 'custom-right-width')
+                if lo + n < W:
+                    w2 = dict(t)
+                    w2['decl_n'] = n
+                    f = fld(w2, [('r', lo, lo + n)])
+                    one(W, f, 'reject', 'custom-wrong-width')
+        # malformed attribute token streams (expected verdict by fiat; no structured form)
+        for text, tag in [('#[bits(0..=3, rx)]', 'unknown-ident'), ('#[bits(0..3, rw)]', 'exclusive-range'),
+                          ('#[bits(0..=, rw)]', 'missing-upper'), ('#[bits(..=3, rw)]', 'missing-lower'),
+                          ('#[bits(0..=3, rw, stride)]', 'stride-without-value'), ('#[bits(0..=3, stride = rw)]', 'stride-ident'),
+                          ('#[bits(0=3, rw)]', 'equals-in-range'), ('#[bitx(0..=3, rw)]', 'unknown-attribute'),
+                          ('#[bits(rw)]', 'no-range'), ('#[bits(0..=3 rw)]', 'missing-comma'),
+                          ('#[bits(0x0..=3, rw)]', 'hex-literal'), ('#[bits([0..=1], [2..=3], rw)]', 'two-lists')]:
+            f = self.field('x', {'k': 'u', 'n': 4}, [('r', 0, 3)])
+            f['attr_text'] = text
+            d = {'kind': 'bitfield', 'name': self.name('S'), 'base': 8, 'fields': [f], 'unstructured': True}
+            self.add(d, 'F7d', 'reject', [tag])
+        # unsupported base types
+        for bt, tag in [('u0', 'base-u0'), ('u129', 'base-u129'), ('u200', 'base-u200'), ('i32', 'base-i32'), ('usize', 'base-usize'),
+                        ('bool', 'base-bool')]:
+            f = self.field('x', {'k': 'bool'}, [('s', 0)])
+            self.add({'kind': 'bitfield', 'name': self.name('S'), 'base': 8, 'base_text': bt, 'fields': [f], 'unstructured': True},
+                     'F7d', 'reject', [tag])
+
+    def exhaustive_small_slice(self):
+        """every (lo, hi) in [0, 10]^2 on bases u8 and u9, type widths around hi-lo+1 (thorough tier: all widths <= 10)"""
+        rng = self.rng
+        q = self.tier == 'quick'
+        for W in (8, 9):
+            for lo in range(0, 11):
+                for hi in range(0, 11):
+                    widths = range(1, 11)
+                    if q:
+                        if rng.random() > 0.12:
+                            continue
+                        widths = [hi - lo + 1] if hi >= lo and rng.random() < 0.6 else [rng.randint(1, 10)]
+                    for w in widths:
+                        ok = lo <= hi and hi < W and w == hi - lo + 1
+                        f = self.field('x', {'k': 'u', 'n': w}, [('r', lo, hi)], acc='rw')
+                        self.add({'kind': 'bitfield', 'name': self.name('S'), 'base': W, 'fields': [f]}, 'F7x',
+                                 'accept' if ok else 'reject', ['slice'])
+
     def generate(self):
         q = self.tier == 'quick'
         self.fam_single(42 if q else 300)
         self.fam_arrays(20 if q else 200)
         self.fam_lists(24 if q else 250)
+        self.fam_enums()
+        self.invalid_enums()
+        self.invalid_bitfields(6 if q else 60)
+        self.exhaustive_small_slice()
         return self.decls
 
 
